@@ -823,8 +823,21 @@ pub fn run(seed: u64, n: usize, kinds: &[String], out: &mut dyn Write) -> std::i
                 ("dec256", "fromratio"), ("dec256", "fromuint"), ("dec256", "cmp"),
             ];
             let (ty, op) = *r.pick(&ops);
-            let a = pal256(&mut r);
             let d18 = u(D18);
+            // one call in four: operands that both fit one machine word (64 bits) or two (128 bits) while products,
+            // scaled products and quotients cross the word boundary - the inputs of "fast paths" for small operands
+            if r.chance(1, 4) {
+                let w = if r.chance(2, 3) { 64 } else { 128 };
+                let hi = |r: &mut Rng| -> U256 {
+                    let bits = r.range(w as u64 - 12, w as u64) as u32;
+                    let v = r.bits256(bits);
+                    match r.below(6) { 0 => (U256::one() << w) - U256::one(), 1 => (U256::one() << (w - 1)), 2 => d18 * U256::from(r.range(1, 18)) + U256::from(r.below(3)), _ => v }
+                };
+                let (a, b, c) = (hi(&mut r), hi(&mut r), if r.chance(1, 2) { hi(&mut r) } else { d18 });
+                emit(ev_arith(ty, op, a, b, c), out, &mut count)?;
+                continue;
+            }
+            let a = pal256(&mut r);
             // partner operands on the abort boundary of the product / sum / difference involved
             let b = match r.below(6) {
                 0 if !a.is_zero() => U256::MAX / a,
